@@ -520,7 +520,7 @@ func violationReproduced(v *Violation, nr *nativeResult) bool {
 	case "panic":
 		return nr.Panic != ""
 	case "hang":
-		return nr.Hang || strings.Contains(nr.Panic, "deadlock")
+		return nr.Hang || strings.Contains(nr.Panic, "deadlock") || strings.Contains(nr.Panic, "stack overflow") || strings.Contains(nr.Panic, "stack exceeds")
 	}
 	return false
 }
